@@ -730,7 +730,7 @@ Proof.
     unfold transposed; cbn [res log]. split; [unfold zlen in *; lia|]. split; [|split].
     - intros i j Hi Hj.
       assert (Heq : i * h + j = j * w + i) by (destruct E1 as [E|E]; apply Z.eqb_eq in E; subst; lia).
-      rewrite Heq. apply zget_some_iff in Hi as _.
+      rewrite Heq.
       destruct (proj2 (zget_some_iff T data (j * w + i)) ltac:(nia)) as [v Hv]. exists v. auto.
     - repeat constructor; cbn [ev_idx ev_len]; unfold zlen in *; lia.
     - intros x Hx. exists {| ev_wr := true; ev_idx := 0; ev_len := zlen data |}.
